@@ -17,6 +17,11 @@ import (
 var (
 	// MaxVariantArrayLength sets a limit on the number of elements in array
 	MaxVariantArrayLength = 0xffff
+
+	// MaxVariantArrayDimensions sets a limit on the number of dimensions
+	// of an array. Rebuilding the nested slices takes time and memory
+	// which grow with the square of the number of dimensions.
+	MaxVariantArrayDimensions = 32
 )
 
 const (
@@ -118,7 +123,15 @@ func (m *Variant) Value() interface{} {
 
 // Decode implements the codec interface.
 func (m *Variant) Decode(b []byte) (int, error) {
+	return m.decodeNested(b, 0)
+}
+
+func (m *Variant) decodeNested(b []byte, level int) (int, error) {
+	if level >= MaxNestingLevel {
+		return 0, StatusBadEncodingLimitsExceeded
+	}
 	buf := NewBuffer(b)
+	buf.level = level + 1
 	m.mask = buf.ReadByte()
 
 	// a null value specifies that no other fields are encoded
@@ -150,6 +163,11 @@ func (m *Variant) Decode(b []byte) (int, error) {
 	if n < -1 {
 		return buf.Pos(), StatusBadEncodingLimitsExceeded
 	}
+	// every element takes at least one byte: do not allocate
+	// more elements than the buffer can hold.
+	if n > buf.Len() {
+		return buf.Pos(), io.ErrUnexpectedEOF
+	}
 
 	// get the type for the slice
 	sliceType := reflect.SliceOf(typ)
@@ -175,7 +193,7 @@ func (m *Variant) Decode(b []byte) (int, error) {
 	// check for dimensions of multi-dimensional array
 	if m.Has(VariantArrayDimensions) {
 		m.arrayDimensionsLength = buf.ReadInt32()
-		if m.arrayDimensionsLength < 0 {
+		if m.arrayDimensionsLength < 0 || int(m.arrayDimensionsLength) > MaxVariantArrayDimensions {
 			return buf.Pos(), StatusBadEncodingLimitsExceeded
 		}
 		// every dimension takes four bytes: do not allocate more than the buffer can hold
@@ -328,12 +346,10 @@ func (m *Variant) decodeValue(buf *Buffer) interface{} {
 		buf.ReadStruct(v)
 		return v
 	case TypeIDVariant:
-		// todo(fs): limit recursion depth to 100
 		v := new(Variant)
 		buf.ReadStruct(v)
 		return v
 	case TypeIDDiagnosticInfo:
-		// todo(fs): limit recursion depth to 100
 		v := new(DiagnosticInfo)
 		buf.ReadStruct(v)
 		return v
